@@ -121,6 +121,52 @@ theorem limit_interferes :
 theorem rightJoin_null_unit :
     (none, (none, "x")) ∈ rightJoinPublished (fun (_ : String) (_ : String) => false) [((1 : Nat), "a")] ["x"] := by decide
 
+/-! ## Neighbouring datasets: removing one unit leaves every other unit's output rows as they were -/
+
+/-- the dataset without the rows of unit `u` -/
+def without (u : U) (R : List (U × α)) : List (U × α) := R.filter fun r => !(r.1 == u)
+
+theorem restrict_without (u v : U) (hne : v ≠ u) (R : List (U × α)) : restrict v (without u R) = restrict v R := by
+  unfold restrict without
+  rw [List.filter_filter]
+  apply List.filter_congr
+  intro r _
+  by_cases h : r.1 = v
+  · simp [h, hne]
+  · have : (r.1 == v) = false := by simpa using h
+    simp [this]
+
+/-- **Non-interference between neighbours**, for every operator (or tree of operators) that commutes with `restrict`: the rows
+the output attributes to a unit `v` are the same whether or not another unit `u` is in the data. -/
+theorem neighbour_stable {δ : Type} (op : List (U × α) → List (U × δ)) (hop : ∀ v R, restrict v (op R) = op (restrict v R))
+    (u v : U) (hne : v ≠ u) (R : List (U × α)) : restrict v (op (without u R)) = restrict v (op R) := by
+  rw [hop, hop, restrict_without u v hne]
+
+/-- instances: projection, WHERE, joins with published data — and any composition of them -/
+theorem neighbour_stable_pmap (f : α → β) (u v : U) (hne : v ≠ u) (R : List (U × α)) :
+    restrict v (pmap f (without u R)) = restrict v (pmap f R) :=
+  neighbour_stable (pmap f) (fun v R => restrict_pmap v f R) u v hne R
+
+theorem neighbour_stable_pfilter (p : α → Bool) (u v : U) (hne : v ≠ u) (R : List (U × α)) :
+    restrict v (pfilter p (without u R)) = restrict v (pfilter p R) :=
+  neighbour_stable (pfilter p) (fun v R => restrict_pfilter v p R) u v hne R
+
+theorem neighbour_stable_joinPublished (on : α → β → Bool) (P : List β) (u v : U) (hne : v ≠ u) (R : List (U × α)) :
+    restrict v (joinPublished on (without u R) P) = restrict v (joinPublished on R P) :=
+  neighbour_stable (fun R => joinPublished on R P) (fun v R => restrict_joinPublished v on R P) u v hne R
+
+theorem neighbour_stable_leftJoinPublished (on : α → β → Bool) (P : List β) (u v : U) (hne : v ≠ u) (R : List (U × α)) :
+    restrict v (leftJoinPublished on (without u R) P) = restrict v (leftJoinPublished on R P) :=
+  neighbour_stable (fun R => leftJoinPublished on R P) (fun v R => restrict_leftJoinPublished v on R P) u v hne R
+
+theorem commutes_comp {δ ε : Type} (f : List (U × α) → List (U × δ)) (g : List (U × δ) → List (U × ε))
+    (hf : ∀ v R, restrict v (f R) = f (restrict v R)) (hg : ∀ v R, restrict v (g R) = g (restrict v R)) :
+    ∀ v R, restrict v (g (f R)) = g (f (restrict v R)) := fun v R => by rw [hg, hf]
+
+/-- … while a kept LIMIT is not stable: removing unit 1 changes what unit 2 gets -/
+theorem limit_not_neighbour_stable :
+    restrict 2 (plimit 1 (without 1 [((1 : Nat), "a"), (2, "b")])) ≠ restrict 2 (plimit 1 [((1 : Nat), "a"), (2, "b")]) := by decide
+
 /-- Non-vacuity: a join of two tracked relations where units share join keys. -/
 example : restrict 1 (joinTracked (fun (a b : Nat) => a == b) [((1 : Nat), 7), (2, 7)] [(1, 7), (2, 7)]) = [(1, (7, 7))] := by decide
 
